@@ -218,6 +218,13 @@ def run_ravel(case, drv):
     back = a.grid_to_int_index(g)
     if [int(x) for x in back] != ints:
         return Failure("oracle", f"[C03] grid_to_int_index(int_to_grid_index(i)) != i on dims {dims}")
+    # both conversions take array-likes: the same through plain lists and int64 arrays
+    g_l = a.int_to_grid_index([int(i) for i in ints])
+    back_l = a.grid_to_int_index([[int(x) for x in row] for row in g]) if len(ints) else back
+    back_64 = a.grid_to_int_index(np.asarray(g, dtype=np.int64))
+    if not np.array_equal(g_l, g) or [int(x) for x in back_l] != ints or [int(x) for x in back_64] != ints:
+        return Failure("oracle", f"[C03] int_to_grid_index / grid_to_int_index give other results for lists or int64 "
+                       f"arrays than for int32 arrays on dims {dims}")
     if np.any(g < 0) or np.any(g >= np.array(dims)):
         return Failure("oracle", f"[C03] int_to_grid_index out of range on dims {dims}")
     if cells <= 300:
